@@ -424,3 +424,67 @@ impl MainState {
                 }
 //@end
 }
+
+// ===== CONTRACT: the answers of a refused JOIN (C07: "answered with the matching error (475, 474, 473, 471, 405)") =====
+// The decision about ONE channel name (body of the first loop of process_join) as a block of its own: it is only proved here, the
+// handler keeps its own proof (any change to these lines changes both texts, both are cut from the same source).
+pub open spec fn key_bad(ch: Channel, key: Option<Seq<char>>) -> bool { ch.modes.key is Some && !(key is Some && ch.modes.key->0@ == key->0) }
+pub open spec fn invite_bad(ch: Channel, u: User, c: String, src: Seq<char>) -> bool {
+    ch.modes.invite_only && !u.invited_to@.contains(c) && !(ch.modes.invite_exception is Some && any_match(ch.modes.invite_exception->0@, src))
+}
+pub open spec fn full_bad(ch: Channel) -> bool { ch.modes.client_limit is Some && ch.users@.len() >= ch.modes.client_limit->0 }
+pub open spec fn quota_bad(mj: Option<usize>, count: int) -> bool { mj is Some && count >= mj->0 }
+// an error line about channel name `cn` whose reason really applies
+pub open spec fn join_err_applies(item: FedItem, s: VolatileState, u: User, src: Seq<char>, cn: Seq<char>, key: Option<Seq<char>>, mj: Option<usize>, count: int) -> bool {
+    let c = string_of(cn);
+    match fed_reply(item) {
+        Some(Reply::ErrBadChannelKey475 { client, channel }) => channel@ == cn && s.channels@.contains_key(c) && key_bad(s.channels@[c], key),
+        Some(Reply::ErrBannedFromChan474 { client, channel }) => channel@ == cn && s.channels@.contains_key(c) && banned_spec(s.channels@[c].modes, src),
+        Some(Reply::ErrInviteOnlyChan473 { client, channel }) => channel@ == cn && s.channels@.contains_key(c) && invite_bad(s.channels@[c], u, c, src),
+        Some(Reply::ErrChannelIsFull471 { client, channel }) => channel@ == cn && s.channels@.contains_key(c) && full_bad(s.channels@[c]),
+        Some(Reply::ErrTooManyChannels405 { client, channel }) => channel@ == cn && quota_bad(mj, count),
+        _ => false,
+    }
+}
+// the JOIN of this name is refused for one of the five reasons that have an error code (being on the channel already has none)
+pub open spec fn join_refused_with_reason(s: VolatileState, u: User, src: Seq<char>, cn: Seq<char>, key: Option<Seq<char>>, mj: Option<usize>, count: int) -> bool {
+    let c = string_of(cn);
+    quota_bad(mj, count) || (s.channels@.contains_key(c) && (key_bad(s.channels@[c], key) || banned_spec(s.channels@[c].modes, src)
+        || invite_bad(s.channels@[c], u, c, src) || full_bad(s.channels@[c])))
+}
+
+impl MainState {
+//@block state/channel_cmds.rs MainState::process_join join_decide_one unit=joinreply props=C07,C05 rules=R2,R5b loopbody=~|for \(i, chname_str\) in channels\.iter\(\)\.enumerate\(\)|
+//@head
+    pub async fn join_decide_one<'a>(&self, state: &VolatileState, user: &User, conn_state: &mut ConnState, chname_str: &&'a str, i: usize,
+            keys_opt: &Option<Vec<&'a str>>, user_nick: String, join_count_in: usize, joined_created: &mut Vec<(bool, bool)>) -> (r: Result<usize, HErr>)
+//@prologue
+            let client = conn_state.user_state.client_name();
+//@glue
+            let mut join_count = join_count_in;
+//@epilogue
+            Ok(join_count)
+//@spec
+        requires
+            state_wf(*state), old(conn_state).user_state.nick is Some, user_nick == my_nick(*old(conn_state)),
+            keys_opt is Some ==> i < keys_opt->0@.len(),
+            join_count_in < usize::MAX,
+        ensures
+            conn_same_but_stream(*final(conn_state), *old(conn_state)), // @prop C07
+            old(conn_state).stream.log().len() <= final(conn_state).stream.log().len(), // @prop C07
+            forall|k: int| 0 <= k < old(conn_state).stream.log().len() ==> final(conn_state).stream.log()[k] == old(conn_state).stream.log()[k], // @prop C07
+            // every answer is an error about this channel name whose reason applies ...
+            forall|k: int| old(conn_state).stream.log().len() <= k < final(conn_state).stream.log().len() ==> // @prop C07
+                join_err_applies(#[trigger] final(conn_state).stream.log()[k], *state, *user, old(conn_state).user_state.source@, chname_str@, key_at(*keys_opt, i as int), self.config.max_joins, join_count_in as int),
+            // ... a JOIN refused for one of the five reasons is answered, an admitted one is not
+            r is Ok && join_refused_with_reason(*state, *user, old(conn_state).user_state.source@, chname_str@, key_at(*keys_opt, i as int), self.config.max_joins, join_count_in as int)
+                ==> final(conn_state).stream.log().len() > old(conn_state).stream.log().len(), // @prop C07
+            // the decision recorded for the effect phase: admitted iff every condition of the statement holds
+            r is Ok ==> final(joined_created)@.len() == old(joined_created)@.len() + 1 && final(joined_created)@[old(joined_created)@.len() as int].0 ==
+                (!join_refused_with_reason(*state, *user, old(conn_state).user_state.source@, chname_str@, key_at(*keys_opt, i as int), self.config.max_joins, join_count_in as int)
+                 && !(state.channels@.contains_key(sk(*chname_str)) && state.channels@[sk(*chname_str)].users@.contains_key(user_nick))), // @prop C07
+//@open
+        broadcast use group_hash_axioms, bridge, string_eq, ax_fed_reply;
+        proof { assert(string_of(chname_str@) == sk(*chname_str)); }
+//@end
+}
